@@ -177,7 +177,7 @@ M("c14-no-callback", "C14", DEP, "        for dependent in self.dependents:\n   
 M("c14-record-late", "C14", DEP, "        self.x = x\n        self.y = y\n        if self._may_fit:  # is the conditioner fitted, so that we can fit now?\n            self._fit(self.x, self.y)", "        if self._may_fit:  # is the conditioner fitted, so that we can fit now?\n            self.x = x\n            self.y = y\n            self._fit(self.x, self.y)", rules=["C14.protocol"])
 M("c14-no-replay", "C14", DEP, "                self.fit(self.x, self.y)", "                pass", rules=["C14.protocol"])
 M("c14-zip-order", "C14", DEP, "        self.parameters = dict(zip(self.parameters.keys(), popt))", "        self.parameters = dict(zip(self.parameters.keys(), popt[::-1]))", rules=["C14.start"])
-M("c14-minimize-bounds", "C14", FIT, "        bounds=bounds,\n        # tol=1E-15", "        # tol=1E-15", rules=["C14.bounds"])
+M("c14-minimize-bounds", "C14", FIT, "        bounds=bounds,\n        # the default ftol", "        # the default ftol", rules=["C14.bounds"])
 M("c15-label-struct", "C15", C, "labeled_array, n_modes = ndi.label(HDC, structure=structure)", "labeled_array, n_modes = ndi.label(HDC)", rules=["C15.struct"])
 M("c15-dim0", "C15", C, "partial_coordinates.append(cell_center_coordinates[dimension][indice])", "partial_coordinates.append(cell_center_coordinates[0][indice])", rules=["C15.coords"])
 M("c15-labels", "C15", C, "for i in range(1, n_modes + 1):", "for i in range(1, n_modes):", rules=["C15.coords"])
@@ -209,8 +209,9 @@ M("c18-exc-class", "C18", J, '                raise ValueError(\n               
 M("c18-both", "C18", D, '                if getattr(distribution, f"f_{par_name}") is not None:\n                    raise ValueError(', '                if getattr(distribution, f"f_{par_name}") is not None and False:\n                    raise ValueError(', rules=["C18.guard"])
 M("c18-nan", ["C18", "C02"], C, "        if np.isnan(f).any():\n            raise ValueError(\n                \"Encountered nan", "        if np.isnan(f).all():\n            raise ValueError(\n                \"Encountered nan", rules={"C18": ["C18.guard"], "C02": ["C02.nan"]})
 M("c18-ppi-callable", "C18", I, "        if not callable(reference):\n            raise TypeError(", "        if reference is None:\n            raise TypeError(", rules=["C18.guard"], what="original defect D16")
-M("c18-data-dim", "C18", J, "        if data.ndim != 2 or data.shape[-1] != self.n_dim:", "        if data.ndim != 2 or data.shape[-1] > self.n_dim:", rules=["C18.guard"])
-M("c18-data-ndim", "C18", J, "        if data.ndim != 2 or data.shape[-1] != self.n_dim:", "        if data.shape[-1] != self.n_dim:", rules=["C18.guard"], what="original defect D27")
+M("c18-data-dim", "C18", J, "fit_descriptions)\n\n        if data.ndim != 2 or data.shape[-1] != self.n_dim:", "fit_descriptions)\n\n        if data.ndim != 2 or data.shape[-1] > self.n_dim:", rules=["C18.guard"])
+M("c18-data-ndim", "C18", J, "fit_descriptions)\n\n        if data.ndim != 2 or data.shape[-1] != self.n_dim:", "fit_descriptions)\n\n        if data.shape[-1] != self.n_dim:", rules=["C18.guard"], what="original defect D27")
+M("c18-tm-data-ndim", "C18", J, "        data = np.array(data)\n        if data.ndim != 2 or data.shape[-1] != self.n_dim:", "        data = np.array(data)\n        if data.shape[-1] != self.n_dim:", rules=["C18.guard"])
 M("c19-ew-pdf-inplace", "C19", D, "        x_greater_zero = np.where(x > 0, x, np.nan)", "        x = np.asarray(x, dtype=float)\n        x[x <= 0] = np.nan\n        x_greater_zero = x", rules=["C19.noargmut"])
 M("c19-sample-inplace", "C19", C, "        x, y = sample.T\n\n        # Calculate non-exceedance probability.", "        x, y = sample.T\n        x -= 0\n\n        # Calculate non-exceedance probability.", rules=["C19.nomodelwrite"])
 M("c19-model-cache", "C19", J, "        x = np.asarray_chkfinite(x)\n        if x.shape[-1] != self.n_dim:", "        x = np.asarray_chkfinite(x)\n        self._last_x = x\n        if x.shape[-1] != self.n_dim:", rules=["C19.nomodelwrite"])
@@ -244,7 +245,7 @@ M("c15-shape-no-sorter", "C15", C, "                self.coordinates = np.array(
 M("c15-twin-gbs", "C15", C, "structure = np.ones(tuple([3] * n_dim), dtype=bool)", "structure = ndi.generate_binary_structure(n_dim, n_dim)", expect="pass")
 # ------------------------------------------------------------------ repaired copies of the recorded findings
 M("c14-constraints-dropped", "C14", FIT, "        constraints=constraints,\n        bounds=bounds,", "        # constraints=constraints,\n        bounds=bounds,", rules=["C14.constraints"], what="original defect D9")
-M("c14-step-1e-15", "C14", FIT, "        bounds=bounds,\n        # tol=1E-15\n", "        bounds=bounds,\n        options={\"eps\": 1e-15},\n", rules=["C14.constraints"], what="original defect D9 (finite-difference step)")
+M("c14-step-1e-15", "C14", FIT, "options={\"ftol\": 1e-12, \"maxiter\": 1000}", "options={\"ftol\": 1e-12, \"maxiter\": 1000, \"eps\": 1e-15}", rules=["C14.constraints"], what="original defect D9 (finite-difference step)")
 M("c17-assert-two-crossings", "C17", U, "        x, y = intersection(x1, y1, [x2, x2], y2)\n", "        x, y = intersection(x1, y1, [x2, x2], y2)\n        assert len(x) <= 2\n        assert len(y) <= 2\n", rules=["C17.all"], what="original defect D15")
 M("repair-D10", "C15", U, "    order = list(nx.dfs_preorder_nodes(T, 0))\n", "    order = list(nx.dfs_preorder_nodes(T, 0))\n    if len(order) != len(points):\n        raise RuntimeError(\"points do not form one continuous line\")\n", expect="repaired", rules=["C15.perm"], what="length guard on the order")
 
@@ -393,3 +394,26 @@ M("c03-twin-count-floor", "C03", C, "        n_angles = int(round(360 / deg_step
 M("c16-seed-not-passed-iform", "C16", C, "                random_state=self.model.random_state,\n            )\n\n        for i in range(1, n_dim):", "            )\n\n        for i in range(1, n_dim):", rules=["C16.rng"], what="original defect D12 (first coordinate unseeded)")
 M("c16-seed-dropped-marginal", "C16", J, "        sample = self.draw_sample(n, random_state=random_state)", "        sample = self.draw_sample(n)", rules=["C16.rng"], what="original defect D12 (marginal_icdf draws unseeded)")
 M("c16-seed-dropped-tm-draw", "C16", J, "        return self.inverse(self.model.draw_sample(n, random_state=random_state))", "        return self.inverse(self.model.draw_sample(n))", rules=["C16.rng"], what="original defect D12 (TransformedModel.draw_sample)")
+
+# ------------------------------------------------------------------ second audit: nine repairs reverted, with twins
+M("c14-slsqp-default-tolerance", "C14", FIT, "        options={\"ftol\": 1e-12, \"maxiter\": 1000},\n", "", rules=["C14.constraints"], what="original defect (second audit C14#1): absolute default ftol 1e-6")
+M("c14-slsqp-loose-tolerance", "C14", FIT, "options={\"ftol\": 1e-12, \"maxiter\": 1000}", "options={\"ftol\": 1e-4, \"maxiter\": 1000}", rules=["C14.constraints"])
+M("c14-twin-slsqp-tolerance-dict", "C14", FIT, "        options={\"ftol\": 1e-12, \"maxiter\": 1000},\n", "        options=dict(ftol=1e-13, maxiter=2000),\n", expect="pass")
+M("c14-start-not-clipped", "C14", FIT, "        p0 = np.clip(p0, bounds[0], bounds[1])\n", "", rules=["C14.bounds"], what="original defect (second audit C14#2): start value outside the bounds")
+M("c14-twin-start-clip-temps", "C14", FIT, "        p0 = np.clip(p0, bounds[0], bounds[1])\n", "        lower_b, upper_b = bounds\n        p0 = np.clip(p0, lower_b, upper_b)\n", expect="pass")
+M("c16-sample-size-last-round", "C16", J, "        if n_counter < n:\n            warnings.warn(", "        if i == max_iter - 1:\n            warnings.warn(", rules=["C16.reject"], what="original defect (second audit C07#2): more than n rows returned")
+M("c16-twin-sample-size-ge", "C16", J, "        if n_counter < n:\n            warnings.warn(", "        if not n_counter >= n:\n            warnings.warn(", expect="pass")
+M("c18-tm-fit-any-dimension", "C18", J, "        data = np.array(data)\n        if data.ndim != 2 or data.shape[-1] != self.n_dim:\n            raise ValueError(\n                \"The dimension of data does not match the \"\n                \"dimension of the model. \"\n                f\"The model has {self.n_dim} dimensions, \"\n                f\"but the data has shape {data.shape}.\"\n            )\n        return self.model.fit(self.transform(data), *args, **kwargs)",
+  "        return self.model.fit(self.transform(data), *args, **kwargs)", rules=["C18.guard"], what="original defect (second audit C18#2)")
+M("c18-tm-pdf-nan", ["C18", "C06"], J, "        x = np.asarray_chkfinite(x)\n        return self.model.pdf(self.transform(x)) * self.jacobian(x)", "        return self.model.pdf(self.transform(x)) * self.jacobian(x)", rules={"C18": ["C18.shared"], "C06": ["C06.finite"]}, what="original defect (second audit C18#1)")
+M("c18-parameters-without-conditional", "C18", J, "            if \"parameters\" in dist_desc and \"conditional_on\" not in dist_desc:\n                raise ValueError(\n                    \"The dist_description key 'parameters' is only allowed for \"\n                    \"conditional distributions, but 'conditional_on' is \"\n                    f\"missing for dimension {i}.\"\n                )\n", "", rules=["C18.guard"], what="original defect (second audit C18#3)")
+M("c18-twin-parameters-guard-nested", "C18", J, "            if \"parameters\" in dist_desc and \"conditional_on\" not in dist_desc:\n                raise ValueError(", "            if \"parameters\" in dist_desc:\n              if not (\"conditional_on\" in dist_desc):\n                raise ValueError(", expect="pass")
+M("c08-list-given-unconverted", "C08", D, "        if np.ndim(given) > 0:\n            given = np.asarray(given)  # dependence functions do arithmetic on it\n", "", rules=["C08.values"], what="original defect (second audit C08#1)")
+M("c08-list-given-wrong-test", "C08", D, "        if np.ndim(given) > 0:\n            given = np.asarray(given)", "        if np.ndim(given) > 1:\n            given = np.asarray(given)", rules=["C08.values"])
+M("c08-twin-given-always-converted", "C08", D, "        if np.ndim(given) > 0:\n            given = np.asarray(given)  # dependence functions do arithmetic on it\n", "        given = np.asarray(given)\n", expect="pass")
+M("c08-twin-given-isscalar", "C08", D, "        if np.ndim(given) > 0:\n            given = np.asarray(given)", "        if not np.isscalar(given):\n            given = np.asarray(given)", expect="pass")
+M("c17-on-line-edge-ignored", ["C17", "C20"], U, "        y = np.append(y, y1[x1 == x2])\n", "", rules={"C17": ["C17.result"], "C20": ["C20.design"]}, what="original defect (second audit C17#1)")
+M("c17-on-line-tested-late", "C17", U, "        y = np.append(y, y1[x1 == x2])\n\n        if len(y) == 0:\n            continue\n", "        if len(y) == 0:\n            continue\n        y = np.append(y, y1[x1 == x2])\n", rules=["C17.result"], what="vertices joined only after the abscissa was already skipped")
+M("c17-twin-on-line-concatenate", "C17", U, "        y = np.append(y, y1[x1 == x2])\n", "        on_line = y1[x1 == x2]\n        y = np.concatenate([y, on_line])\n", expect="pass")
+M("c10-starts-from-arange-values", ["C10", "C09"], I, "        n_intervals = len(np.arange(data_min, data_max + width, width))\n        interval_starts = data_min + width * np.arange(n_intervals)\n", "        interval_starts = np.arange(data_min, data_max + width, width)\n", rules={"C10": ["C10.refs"], "C09": ["C09.membership"]}, what="original defect (second audit C10#1)")
+M("c10-twin-starts-size", "C10", I, "        n_intervals = len(np.arange(data_min, data_max + width, width))\n        interval_starts = data_min + width * np.arange(n_intervals)\n", "        n_intervals = np.arange(data_min, data_max + width, width).size\n        interval_starts = np.arange(n_intervals) * width + data_min\n", expect="pass")
